@@ -15,6 +15,8 @@ MODEL_VARIANT = "fixed"
 
 KEY_F2 = "k2s/take_until/trigger_cleanup_done_destroys_sourceOp_instead_of_triggerOp"
 KEY_F9 = "k2s/stop_immediately/next_start_uses_destroyed_op_after_inline_stop"
+KEY_F14 = "k2s/stop_immediately/cleanup_set_error_forwards_reference_into_destroyed_cleanup_op"
+KEY_F15 = "k2s/type_erase/receiver_wrapper_reads_members_after_destroying_its_op"
 
 UN = ["tr", "fi", "tu", "si", "te"]
 
@@ -63,7 +65,15 @@ class Gen:
         for _ in range(depth):
             k = self.rng.choice(["tr", "tr", "fi", "fi", "tu", "si", "te"])
             if k == "tu" and te_reach:
-                k = "si"           # ordering restriction of the model: no type_erase directly beneath take_until
+                k = "tr"           # ordering restriction of the model: no type_erase directly beneath take_until
+            if k == "te" and s[0] == "te":
+                k = "tr"           # type_erase<int>(type_erased_stream<int>) is the move constructor, not a second layer
+            if k == "si" and "te" in kinds(s):
+                k = "tr"           # stop_immediately's receivers forward no queries; type_erase needs get_scheduler
+            if k == "tr" and valueless(s):
+                k = "fi"           # then() over never's empty value_types does not compile
+            if k == "fi" and s[0] == "single":
+                k = "tr"           # filter_stream's noexcept-specifier connects single's next sender with an lvalue
             if k == "tr": s = ("tr", self.fn(), s)
             elif k == "fi": s = ("fi", self.pred(), s)
             elif k == "tu":
@@ -82,6 +92,14 @@ class Gen:
         else:
             c = ("foreach", self.fn())
         return (c, s)
+
+
+def valueless(s):
+    """the stream's next sender has never_stream's empty value_types"""
+    if s[0] == "never": return True
+    if s[0] == "fi": return valueless(s[2])
+    if s[0] in ("tu", "si"): return valueless(s[1])
+    return False
 
 
 def kinds(s, acc=None):
@@ -328,7 +346,7 @@ def run_k2s(chk, n_tus, cases_per_tu, scripts_per_case, depth_range=(0, 4), cfg=
     gen_dir = os.path.join(cd, "k2src")
     os.makedirs(gen_dir, exist_ok=True)
     hdr_dir = os.environ.get("K2S_HDR_DIR", "")          # development only
-    extra = ("-I" + hdr_dir) if hdr_dir else ""
+    extra = "-g0" + ((" -I" + hdr_dir) if hdr_dir else "")   # no debug info: the template names make it 4x slower
     hdr = open(os.path.join(hdr_dir or vlib.HARNESS, "k2s.hpp"), "rb").read()
     jobs = []
     for cases in tus:
@@ -374,6 +392,14 @@ def run_k2s(chk, n_tus, cases_per_tu, scripts_per_case, depth_range=(0, 4), cfg=
                 stats["roots_completed"] += 1
             mon = None if crashed else monitor(io)
             ci, cm = (io, mo) if crashed else (canon(io), canon(mo))
+            if MODEL_VARIANT != "fixed" and "uaf " in mo:
+                # comparing with the as-written model: the model marks the places where the real code has
+                # undefined behaviour; "uaf 0"/"uaf 1" runs are not comparable beyond that point
+                mev = mo.partition(" # ")[0].split(";")
+                if "uaf 0" in mev or "uaf 1" in mev:
+                    stats["ub_paths_skipped"] = stats.get("ub_paths_skipped", 0) + 1
+                    continue
+                cm = canon(";".join(x for x in mev if not x.startswith("uaf ")) + " # " + mo.partition(" # ")[2])
             distinct.add(ci)
             if ci == cm and not mon:
                 chk.cov["traces_validated_against_impl"] += 1
@@ -388,10 +414,16 @@ def run_k2s(chk, n_tus, cases_per_tu, scripts_per_case, depth_range=(0, 4), cfg=
                    "impl": io, "model": mo, "model_as_written": aw, "monitor": list(mon) if mon else None,
                    "obligation": "K2-stream correspondence SCalc.exec vs the real stream algorithms + direct monitors",
                    "replay": "echo '%s' | %s" % (il, exe)}
-            if ";uaf" in aw or aw.startswith("uaf"):
-                key, txt = KEY_F9, "stop requested inside stop_immediately's callback registration"
-            elif not crashed and canon(aw) == ci and "tu" in ks:
+            awe = aw.partition(" # ")[0].split(";")
+            aw_nouaf = ";".join(x for x in awe if not x.startswith("uaf ")) + " # " + aw.partition(" # ")[2]
+            if not crashed and canon(aw_nouaf) == ci and "tu" in ks and canon(aw_nouaf) != cm:
                 key, txt = KEY_F2, "implementation behaves like the as-written model"
+            elif "uaf 0" in awe:
+                key, txt = KEY_F9, "stop requested inside stop_immediately's callback registration"
+            elif "uaf 1" in awe:
+                key, txt = KEY_F14, "cleanup error of take_until passed through stop_immediately's cleanup receiver"
+            elif "uaf 2" in awe:
+                key, txt = KEY_F15, "completion passed through type_erased_stream's receiver wrappers (miscompiled at -O1)"
             elif mon:
                 key, txt = "k2s/monitor/%s/%s" % (mon[0], ks), mon[1]
             else:
@@ -414,3 +446,10 @@ def model_run(lines):
             raise RuntimeError("model driver failed: " + err[-500:])
         return res
     return vlib.model_run(lines)
+
+
+def standard_k2s(chk):
+    """quick: few translation units (cached by content hash of TU + harness + /repo tree)"""
+    quick = chk.tier == "quick"
+    return run_k2s(chk, n_tus=5 if quick else 28, cases_per_tu=6, scripts_per_case=14 if quick else 40,
+                   depth_range=(0, 4) if quick else (0, 5))
